@@ -64,6 +64,7 @@ def gen_case(rng, kind):
             # a .cx selection (after the parent's caches were filled) as the frame to pack
             "cx_filter": [float(v) for v in rng.uniform(0.2, 0.8, 2)] if rng.random() < 0.25 else None,
             # the same frame object was packed before with another curve order
+            "np_ints": bool(rng.random() < 0.3),
             "packed_before_p": int(rng.choice([1, 3, 9, 14])) if rng.random() < 0.2 else 0,
             "npartitions": int(rng.integers(1, 13)) if rng.random() < 0.4 else int(rng.integers(1, max(2, min(12, n // 3)) + 1)), "p": int(rng.choice([1, 2, 6, 10, 15, 20]))}
 
@@ -131,7 +132,8 @@ def check_case(ctx, case):
             ok, r, tb = ctx.guarded(lambda: (lambda pk: (pk.npartitions,
                                                          list(dask.compute(*pk.to_delayed())),
                                                          pk.divisions))
-                                    (ddf.pack_partitions(npartitions=k, p=p)))
+                                    (ddf.pack_partitions(npartitions=np.int64(k) if case.get("np_ints") else k,
+                                                         p=np.int32(p) if case.get("np_ints") else p)))
         if not ok:
             ctx.count("evaluations")
             # Dask cannot split a frame whose rows all share one Hilbert distance: nothing claimed
